@@ -1,4 +1,5 @@
 import SJ.Model.FloatFmt
+import SJ.Proofs.F64Round
 import SJ.Proofs.FloatFmt
 /-
 C18 — Floats are printed shortest-round-trip in ECMAScript format.
@@ -39,5 +40,30 @@ theorem C18_fmtE_shape (neg : Bool) (s : Shortest) (wf : WF s) (hlast : s.digits
       (fp = [] ↔ s.digits.length = 1) ∧ (es = 43 ∨ es = 45) ∧ (es = 45 ↔ s.dp - 1 < 0) ∧
       ex ≠ [] ∧ (∀ c ∈ ex, isDigit c = true) ∧ ex.head? ≠ some 48 ∧ digitsVal ex = (s.dp - 1).natAbs :=
   fmtE_shape neg s wf hlast hrange
+
+
+open SJ.F64Round SJ.F64 in
+/-- **Round trip, every finite bit pattern.** What `appendFloat` prints is an RFC number literal whose exact decimal
+    value, correctly rounded, is the very same float — ±0, subnormals, powers of two and ten, the largest finite
+    value included. (`shortest`, the executable contract of `ryuFtoaShortest`, always finds a digit string within 17
+    digits; the text denotes exactly those digits; any decimal inside the rounding interval rounds to the float.) -/
+theorem C18_roundtrip (bits : UInt64) (hfin : F64.isFinite bits = true) :
+    ∃ txt l, appendFloat bits = some txt ∧ Spec.numberLit txt.toList = some (l, []) ∧
+      F64.roundDecimal (litValue l).1 (litValue l).2.1 (litValue l).2.2 = some bits :=
+  appendFloat_roundtrip bits hfin
+
+open SJ.F64Round SJ.F64 in
+/-- the digit search succeeds for every finite non-zero value and its result reads back to the value -/
+theorem C18_shortest_roundtrip (abs : UInt64) (hfin : F64.isFinite abs = true) (hlt : abs.toNat < 2 ^ 63) (h0 : abs ≠ 0) :
+    WF (shortest abs) ∧
+    F64.roundDecimal false (natOfDigits (shortest abs).digits) ((shortest abs).dp - (shortest abs).digits.length) = some abs :=
+  shortest_roundtrip abs hfin hlt h0
+
+open SJ.F64Round SJ.F64 in
+/-- any decimal `d·10^k` inside the rounding interval of a float (end points included iff the mantissa is even) is
+    rounded to that float: what makes a *shorter* digit string acceptable -/
+theorem C18_inside_rounds (ex fr d : Nat) (k : Int) (hex : ex < 2047) (hfr : fr < 2 ^ 52) (hm : mantOf ex fr ≠ 0)
+    (h : insideB (mantOf ex fr) (expOf ex) (lcOf ex fr) d k = true) :
+    F64.roundDecimal false d k = some (bitsOf ex fr) := roundDecimal_of_inside ex fr d k hex hfr hm h
 
 end SJ.Properties.C18
